@@ -313,7 +313,7 @@ fn main() {
                 }
             }
         }
-        let first = ARun { outcome: Outcome::Allow(0), facts: None, iterations: 0 };
+        let first = ARun { outcome: Outcome::Allow(0), facts: None, iterations: 0, queries: vec![] };
         let base = g_acase(&cs.blocks, &cs.auth, (cs.max_facts, cs.max_iter), &first);
         let (tok, auth) = match base {
             G::T(parts) => (parts[0].clone(), parts[1].clone()),
